@@ -319,35 +319,64 @@ def UpdateNeverPanicsStatement : Prop :=
 
 /-! ## (7) round-by-round = round-skipping -/
 
-/-- **proposer_path_independent**: `k ≥ 1` successive `IncrementProposerPriority(1)` produce exactly
-the validator set — all priorities, the proposer, the total — of one
-`IncrementProposerPriority(k)`, provided that (`PathCtx`, all about the list `l0` obtained from the
-set by the first normalisation) addresses are distinct, `T = Σ power > 0`, priorities are in
-`[-B, B]` with `B + (k+1)·T < 2^63`, `l0` is centred (always true: `centred`), and **no
-intermediate call rescales**: `maxMinDiff ≤ 2T` for the states after `1, …, k−1` rounds.
-This is what lets a node that enters round `r` directly
-(`IncrementProposerPriority(r − cs.Round)`) agree with nodes that went through every round. -/
-theorem proposer_path_independent (vs : ValSet) (k : Nat) (B : Int) (hk : 1 ≤ k) (hne : vs.vals ≠ [])
+/-- **proposer_path_independent** (unconditional since the fix of C12-P1):
+`IncrementProposerPriority(a + b)` is `IncrementProposerPriority(a)` followed by
+`IncrementProposerPriority(b)`, for all `a, b ≥ 1` and on **every** validator set — no hypothesis
+about rescaling, ranges or well-formedness; the panicking cases included.  (The loop re-normalises
+before every single round, so a call is the iteration of one state transformer.) -/
+theorem proposer_path_independent (vs : ValSet) (a b : Int) (ha : 0 < a) (hb : 0 < b) :
+    increment vs (a + b) = (increment vs a) >>= (increment · b) :=
+  increment_add vs a b ha hb
+
+/-- `k ≥ 1` successive `IncrementProposerPriority(1)` (a node that enters every round) produce the
+set — all priorities, the proposer, the cached total — of one `IncrementProposerPriority(k)` (a
+node that skips to round `k`), on every set -/
+theorem rounds_one_by_one_eq_skip (vs : ValSet) (k : Nat) (hk : 1 ≤ k) :
+    iterInc k vs = increment vs (k : Int) :=
+  iterInc_eq_increment vs k hk
+
+/-- **node level**: whatever rounds a node actually entered — any sequence of round skips
+`IncrementProposerPriority(s₁); …; IncrementProposerPriority(sₘ)`, every `sᵢ ≥ 1` — it holds the set
+of one `IncrementProposerPriority(s₁ + … + sₘ)` -/
+theorem round_skips_eq_single_call (ss : List Nat) (vs : ValSet) (hne : ss ≠ []) (hpos : ∀ s ∈ ss, 1 ≤ s) :
+    incSeq ss vs = increment vs (ss.sum : Int) :=
+  incSeq_eq_increment ss vs hne hpos
+
+/-- hence two nodes that reach the same round of a height by different skip paths have the same
+priorities and the same proposer: the proposer of `(height, round)` is a function of the
+validator-set history alone -/
+theorem round_skips_path_independent (ss ss' : List Nat) (vs : ValSet) (hne : ss ≠ []) (hne' : ss' ≠ [])
+    (hpos : ∀ s ∈ ss, 1 ≤ s) (hpos' : ∀ s ∈ ss', 1 ≤ s) (hsum : ss.sum = ss'.sum) :
+    incSeq ss vs = incSeq ss' vs :=
+  incSeq_path_independent ss ss' vs hne hne' hpos hpos' hsum
+
+/-- the **former rule** (`incrementOld`: one normalisation per call, then `k` rounds — the code
+before the fix of C12-P1) agrees with round-by-round calls only when nothing rescales in between
+(`PathCtx`: distinct addresses, `T = Σ power > 0`, priorities of the normalised list in `[-B, B]`
+with `B + (k+1)·T < 2^63`, centred, and `maxMinDiff ≤ 2T` after `1, …, k−1` rounds) -/
+theorem old_rule_agrees_without_rescale (vs : ValSet) (k : Nat) (B : Int) (hk : 1 ≤ k) (hne : vs.vals ≠ [])
     (hpanic : rescalePanics (I64.mul windowFactor vs.total) vs.vals = false)
     (h : PathCtx vs.total (I64.mul windowFactor vs.total) B k
       (shiftList (rescaleList (I64.mul windowFactor vs.total) vs.vals))) :
-    iterInc k vs = increment vs (k : Int) :=
-  iterInc_eq_increment vs k B hk hne hpanic h
+    iterInc k vs = incrementOld vs (k : Int) ∧ increment vs (k : Int) = incrementOld vs (k : Int) :=
+  ⟨iterInc_eq_incrementOld vs k B hk hne hpanic h, increment_eq_incrementOld vs k B hk hne hpanic h⟩
 
-/-- the set on which the hypothesis "no intermediate rescale" fails -/
+/-- a set on which the hypothesis "no intermediate rescale" fails -/
 def pathWitness : ValSet :=
   { vals := [⟨1, 3, 17⟩, ⟨2, 1, -18⟩, ⟨3, 5, 14⟩], proposer := none, total := 9 }
 
-/-- **counterexample without the hypothesis**: powers (3, 1, 5), priorities (17, −18, 14).  After
-the first round the priorities are (9, −10, 1): spread 19 > 2T = 18, so the second
-`IncrementProposerPriority(1)` rescales (halves) while `IncrementProposerPriority(4)` does not.
-Round by round the proposers are 3, 1, 3, **3**; the node that skips to the fourth round computes
-proposer **1**. -/
-theorem proposer_path_dependent_counterexample :
-    (okOf (increment pathWitness 4)).map (·.proposer) = some (some 1) ∧
+/-- **regression, former rule**: powers (3, 1, 5), priorities (17, −18, 14).  After the first round
+the priorities are (9, −10, 1): spread 19 > 2T = 18, so the second `IncrementProposerPriority(1)`
+rescales (halves) while the former `IncrementProposerPriority(4)` did not: round by round the
+proposers are 3, 1, 3, **3**; the former rule skipping to the fourth round computed proposer **1**.
+The present rule computes **3** on both paths. -/
+theorem proposer_path_dependent_counterexample_old_rule :
+    (okOf (incrementOld pathWitness 4)).map (·.proposer) = some (some 1) ∧
     (okOf (iterInc 4 pathWitness)).map (·.proposer) = some (some 3) ∧
-    (okOf (iterInc 1 pathWitness)).map (fun s => maxMinDiff s.vals) = some 19 := by
-  refine ⟨?_, ?_, ?_⟩ <;> decide
+    (okOf (iterInc 1 pathWitness)).map (fun s => maxMinDiff s.vals) = some 19 ∧
+    okOf (increment pathWitness 4) = okOf (iterInc 4 pathWitness) ∧
+    (okOf (increment pathWitness 4)).map (·.proposer) = some (some 3) := by
+  refine ⟨?_, ?_, ?_, ?_, ?_⟩ <;> decide
 
 /-! ## (8) a-priori invariants of the specification run; no starvation; proportional share -/
 
@@ -446,20 +475,56 @@ theorem proportional_share_div (l : List Validator) (v : Validator) (k : Nat)
 
 /-- **model_refines_spec** (`ModelRefinesSpecStatement`, `k`-independent): on a well-formed
 non-empty set with priorities in `[−B, B]` and `2·n·max(B, T) + n + 2T < 2^62`,
-`IncrementProposerPriority(k)` equals the unbounded `Spec.increment k` for **every** `k ≥ 1` — no
-`int64` operation wraps or clips, however many rounds are run. -/
+`IncrementProposerPriority(k)` equals the unbounded `Spec.increment k` (`k` normalised rounds) for
+**every** `k ≥ 1` — no `int64` operation wraps or clips, however many rounds are run.  (The bound
+is the one of the former rule; `model_refines_spec_sharp` needs much less.) -/
 theorem model_refines_spec : ModelRefinesSpecStatement := by
   intro vs k B hwf hne hk hb hfit
-  exact increment_refines_spec vs k B hwf.1 hwf.2.1 hwf.2.2.1 hne hk hb hfit
+  exact increment_refines_spec vs k B hwf.1 hwf.2.1 hwf.2.2.1 hwf.2.2.2 hne hk hb hfit
 
-/-- the same with the two range conditions separated (sharper): the normalisation needs
-`2B + 2T < 2^63`, the rounds need `n + 2·n·T + 2T < 2^63` — independent of `B` and of `k`. -/
+/-- **sharp form** (since the loop re-normalises before every round): on a well-formed non-empty
+set with priorities in `[−B, B]`, the single condition `2B + 2T < 2^63` — needed for the very first
+normalisation only — makes `IncrementProposerPriority(k)` the unbounded specification for every
+`k ≥ 1` and **every number of validators**: after a normalisation every priority is in `[−2T, 2T]`,
+after the round in `[−3T, 3T]`, and `8T < 2^63` because `T ≤ cap`. -/
 theorem model_refines_spec_sharp (vs : ValSet) (k : Nat) (B : Int) (hwf : WF vs) (hne : vs.vals ≠ [])
-    (hk : 0 < k) (hb : PrioBound B vs.vals) (hfitB : 2 * B + 2 * vs.total ≤ maxI64)
-    (hfit : (vs.vals.length : Int) + 2 * ((vs.vals.length : Int) * vs.total) + 2 * vs.total ≤ maxI64) :
+    (hk : 0 < k) (hb : PrioBound B vs.vals) (hfitB : 2 * B + 2 * vs.total ≤ maxI64) :
     increment vs k = .ok { vals := (Spec.increment vs.vals k).1,
                            proposer := (Spec.increment vs.vals k).2, total := vs.total } :=
-  increment_refines_spec_sharp vs k B hwf.1 hwf.2.1 hwf.2.2.1 hne hk hb hfitB hfit
+  increment_refines_spec_sharp vs k B hwf.1 hwf.2.1 hwf.2.2.1 hwf.2.2.2 hne hk hb hfitB
+
+/-- **the window and the centring hold after every call**: under the hypotheses of
+`model_refines_spec_sharp` the set returned by `IncrementProposerPriority(k)` is centred (priority
+sum in `[0, n)`) and every priority is in `[−3T, 3T]`, for every `k ≥ 1` -/
+theorem increment_result_bounds (vs vs' : ValSet) (k : Nat) (B : Int) (hwf : WF vs) (hne : vs.vals ≠ [])
+    (hk : 0 < k) (hb : PrioBound B vs.vals) (hfitB : 2 * B + 2 * vs.total ≤ maxI64)
+    (hok : increment vs k = .ok vs') :
+    vs'.total = vs.total ∧ PrioBound (3 * vs.total) vs'.vals ∧
+    (0 ≤ sumPrio vs'.vals ∧ sumPrio vs'.vals < vs'.vals.length) := by
+  rw [model_refines_spec_sharp vs k B hwf hne hk hb hfitB] at hok
+  injection hok with hok
+  subst hok
+  have hcap := hwf.2.2.2
+  obtain ⟨_, _, hbnd⟩ := normSteps_refines vs.total k B vs.vals none
+    ⟨hne, hwf.1, hwf.2.1, hwf.2.2.1⟩ hb hfitB (by unfold maxI64; unfold cap at hcap; omega)
+  have h := hbnd (by omega)
+  unfold Spec.increment
+  rw [← hwf.2.2.1]
+  exact ⟨rfl, h.1, h.2⟩
+
+/-- **the former rule and the accounting theorems**: over a stretch of `k` rounds the former rule
+`incrementOld` (one normalisation, then plain rounds) is `Spec.steps` after `Spec.centre ∘
+Spec.rescale` (range: `2B + 2T < 2^63`, `n + 2nT + 2T < 2^63`); with `old_rule_agrees_without_rescale`
+this is how `accounting`, `no_starvation` and `proportional_share` (all about `Spec.steps`/`Spec.run`)
+apply to the present code on every stretch in which no call rescales. -/
+theorem old_rule_refines_spec_steps (vs : ValSet) (k : Nat) (B : Int) (hwf : WF vs) (hne : vs.vals ≠ [])
+    (hk : 0 < k) (hb : PrioBound B vs.vals) (hfitB : 2 * B + 2 * vs.total ≤ maxI64)
+    (hfit : (vs.vals.length : Int) + 2 * ((vs.vals.length : Int) * vs.total) + 2 * vs.total ≤ maxI64) :
+    incrementOld vs k = .ok
+      { vals := (Spec.steps vs.total k (Spec.centre (Spec.rescale (2 * vs.total) vs.vals)) none).1,
+        proposer := (Spec.steps vs.total k (Spec.centre (Spec.rescale (2 * vs.total) vs.vals)) none).2,
+        total := vs.total } :=
+  incrementOld_refines_spec vs k B hwf.1 hwf.2.1 hwf.2.2.1 hne hk hb hfitB hfit
 
 /-- `RescalePriorities(D)` is the specification's rescale (no wrap in `diff + D − 1`, in the ratio or
 in the divisions) under the side conditions of `window` -/
@@ -593,20 +658,29 @@ is `cs.Validators`. -/
 def reachV : Except Err ValSet :=
   andThen (andThen reachNext1 (updateWithChangeSet · [v 2 0 0, v 4 1 0] true)) (increment · 1)
 
-/-- **the path dependence is reachable** (answer to the reachability question; replayed on the real
-code).  The set `reachV` is produced by exactly the calls a node makes (`NewValidatorSet`,
-`CopyIncrementProposerPriority(1)`, then per committed block `UpdateWithChangeSet` +
-`IncrementProposerPriority(1)`): powers (10, 2, 1), priorities (4, 11, −15), `T = 13`, spread
-`26 = 2T`.  After the first round of that height the priorities are (1, 13, −14): spread
-`27 > 2T`.  A node that enters round 1 and then round 2 (`IncrementProposerPriority(1)` twice)
-rescales before the second round and computes proposer **3** for round 2; a node that skips from
-round 0 to round 2 (`IncrementProposerPriority(2)`) does not rescale and computes proposer **1**. -/
-theorem proposer_path_dependent_reachable :
+/-- **regression for finding C12-P1 (former rule)**: the set `reachV` is produced by exactly the
+calls a node makes (`NewValidatorSet`, `CopyIncrementProposerPriority(1)`, then per committed block
+`UpdateWithChangeSet` + `IncrementProposerPriority(1)`): powers (10, 2, 1), priorities (4, 11, −15),
+`T = 13`, spread `26 = 2T`.  After the first round of that height the priorities are (1, 13, −14):
+spread `27 > 2T`.  A node that enters round 1 and then round 2 (`IncrementProposerPriority(1)`
+twice) rescales before the second round and computes proposer **3** for round 2; under the former
+rule a node that skipped from round 0 to round 2 (`incrementOld · 2`) did not rescale and computed
+proposer **1** (replayed on the code before the fix). -/
+theorem proposer_path_dependent_reachable_old_rule :
     okOf reachV = some { vals := [v 3 10 4, v 1 2 11, v 4 1 (-15)], proposer := some 3, total := 13 } ∧
     (okOf (andThen reachV (iterInc 1))).map (fun s => (maxMinDiff s.vals, s.proposer)) = some (27, some 3) ∧
-    (okOf (andThen reachV (increment · 2))).map (·.proposer) = some (some 1) ∧
+    (okOf (andThen reachV (incrementOld · 2))).map (·.proposer) = some (some 1) ∧
     (okOf (andThen reachV (iterInc 2))).map (·.proposer) = some (some 3) := by
   refine ⟨?_, ?_, ?_, ?_⟩ <;> decide
+
+/-- **the present rule agrees on both paths on that witness** (instance of
+`rounds_one_by_one_eq_skip`, evaluated): skipping to round 2 and entering rounds 1 and 2 give the
+same set, proposer **3**, priorities (−2, 9, −5) -/
+theorem proposer_path_independent_on_reachable_witness :
+    okOf (andThen reachV (increment · 2)) = okOf (andThen reachV (iterInc 2)) ∧
+    okOf (andThen reachV (increment · 2)) =
+      some { vals := [v 3 10 (-2), v 1 2 9, v 4 1 (-5)], proposer := some 3, total := 13 } := by
+  refine ⟨?_, ?_⟩ <;> decide
 
 /-! ## non-vacuity and the F1 witness -/
 
